@@ -374,4 +374,146 @@ theorem font_family_counterexample : ¬ font_family_full := by
   subst this
   exact absurd h2 (by decide)
 
+/-! ## (g) layers, flex, line shorthands -/
+
+/-- **background-size**: `x auto` → `x` in every layer keeps (width, height) of every layer (a missing height is
+    `auto`, CSS Backgrounds 3 §3.9) — for every token list, any number of layers -/
+theorem bg_size_ok (vs : List Tok) :
+    (splitCommas (mapSeg bgSizeSeg vs)).map bgSize = (splitCommas vs).map bgSize :=
+  layers_congr bgSize bgSizeSeg bgSizeSeg_noComma vs (fun seg _ => bgSize_layer seg)
+
+/-- **background-repeat**: `repeat no-repeat` → `repeat-x`, `no-repeat repeat` → `repeat-y`, `k k` → `k` keep the
+    (horizontal, vertical) pair of every layer (CSS Backgrounds 3 §3.4), for every value whose layers are valid
+    `<repeat-style>`s -/
+theorem bg_repeat_ok (vs : List Tok) (hv : ∀ seg ∈ splitCommas vs, (bgRepeat seg).isSome = true) :
+    (splitCommas (mapSeg bgRepeatSeg vs)).map bgRepeat = (splitCommas vs).map bgRepeat :=
+  layers_congr bgRepeat bgRepeatSeg bgRepeatSeg_noComma vs (fun seg hs => by
+    obtain ⟨d, hd⟩ := Option.isSome_iff_exists.mp (hv seg hs)
+    rw [hd]; exact bgRepeat_layer seg d hd)
+
+
+/-- **flex**: `g s 0` → `g s`, `g 1 0` → `g`, `g 0px` → `g`, `0 1 auto` → `initial`, `1 1 auto` → `auto`, `0 0 auto` →
+    `none` keep (flex-grow, flex-shrink, flex-basis) (CSS Flexbox 1 §7.1.1; a zero basis is `zero` whatever its
+    unit), for every valid value whose tokens satisfy the zero-shape contract -/
+theorem flex_ok (vs : List Tok) (hz : ∀ t ∈ vs, ZeroSound t) (d : Rat × Rat × Basis)
+    (hv : flexTriple vs = some d) : flexTriple (minifyFlex vs) = some d := by
+  unfold minifyFlex
+  split
+  · -- two values
+    rename_i a b
+    split
+    · rename_i hc
+      simp only [Bool.and_eq_true, beq_iff_eq, bne_iff_ne, ne_eq] at hc
+      obtain ⟨⟨ha, hb⟩, hzb⟩ := hc
+      have hbz := basisOf_zero b (hz b (by simp)) hzb
+      simp only [flexTriple, flexNum_number a ha, flexNum_other b hb, hbz] at hv
+      cases hg : numVal a.data with
+      | none => rw [hg] at hv; simp at hv
+      | some g =>
+        rw [hg] at hv
+        simp only [Option.map_some] at hv
+        rw [flexTriple_single a g ha hg]; exact hv
+    · exact hv
+  · -- three values
+    rename_i a b c
+    split
+    · rename_i hc
+      simp only [Bool.and_eq_true, beq_iff_eq] at hc
+      obtain ⟨⟨⟨ha, hb⟩, hla⟩, hlb⟩ := hc
+      simp only [flexTriple, flexNum_number a ha, flexNum_number b hb] at hv
+      cases hga : numVal a.data with
+      | none => rw [hga] at hv; simp at hv
+      | some g =>
+        cases hgb : numVal b.data with
+        | none => rw [hga, hgb] at hv; simp at hv
+        | some s =>
+          cases hbc : basisOf c with
+          | none => rw [hga, hgb, hbc] at hv; simp at hv
+          | some bs =>
+            rw [hga, hgb, hbc] at hv
+            simp only [Option.some.injEq] at hv
+            subst hv
+            split
+            · -- auto
+              rename_i hauto
+              have hauto' : identOf c = S "auto" := by simpa using hauto
+              obtain ⟨hct, hcd⟩ := identOf_eq c _ (by decide) hauto'
+              have hbs : bs = Basis.auto := by
+                have : basisOf c = some Basis.auto := by
+                  have hk : isKw c "auto" = true := by
+                    simp only [isKw, kwOf, hct, beq_self_eq_true, if_true, hcd]; rfl
+                  simp only [basisOf, hk, if_true]
+                rw [this] at hbc; exact (Option.some.inj hbc).symm
+              subst hbs
+              split
+              · rename_i h01
+                simp only [Bool.and_eq_true, beq_iff_eq] at h01
+                rw [h01.1, numVal0] at hga; rw [h01.2, numVal1] at hgb
+                have := Option.some.inj hga; subst this
+                have := Option.some.inj hgb; subst this
+                rfl
+              · split
+                · rename_i h11
+                  simp only [Bool.and_eq_true, beq_iff_eq] at h11
+                  rw [h11.1, numVal1] at hga; rw [h11.2, numVal1] at hgb
+                  have := Option.some.inj hga; subst this
+                  have := Option.some.inj hgb; subst this
+                  rfl
+                · split
+                  · rename_i h00
+                    simp only [Bool.and_eq_true, beq_iff_eq] at h00
+                    rw [h00.1, numVal0] at hga; rw [h00.2, numVal0] at hgb
+                    have := Option.some.inj hga; subst this
+                    have := Option.some.inj hgb; subst this
+                    rfl
+                  · simp only [flexTriple, flexNum_number a ha, flexNum_number b hb, hga, hgb, hbc]
+            · split
+              · rename_i hb1
+                simp only [Bool.and_eq_true, beq_iff_eq] at hb1
+                have hbz := basisOf_zero c (hz c (by simp)) hb1.2
+                rw [hbz] at hbc
+                have := Option.some.inj hbc; subst this
+                rw [hb1.1, numVal1] at hgb
+                have := Option.some.inj hgb; subst this
+                exact flexTriple_single a g ha hga
+              · split
+                · rename_i hcz
+                  have hbz := basisOf_zero c (hz c (by simp)) hcz
+                  rw [hbz] at hbc
+                  have := Option.some.inj hbc; subst this
+                  simp only [flexTriple, flexNum_number a ha, flexNum_number b hb, hga, hgb]
+                · rename_i hcz
+                  have : minifyLengthPercentage c = c := by
+                    simp only [minifyLengthPercentage]
+                    have : isZero c = false := by simpa using hcz
+                    simp [this]
+                  rw [this]
+                  simp only [flexTriple, flexNum_number a ha, flexNum_number b hb, hga, hgb, hbc]
+    · exact hv
+  · exact hv
+
+
+/-- **line shorthands**: dropping the initial-value keywords of `border*`, `outline`, `column-rule`,
+    `text-decoration`, `text-emphasis` (and writing `none` when nothing is left) keeps every component
+    (width, style, colour, line) of the shorthand -/
+theorem line_drop_ok (prop : List Char) (kws : List (List Char)) (hp : (prop, kws) ∈ lineDropTable) (vs : List Tok) :
+    lineShorthand prop (dropOnly kws vs) = lineShorthand prop vs := by
+  simp only [lineShorthand, List.map_cons, List.map_nil]
+  rw [slotVal_drop prop kws hp vs .width (by simp), slotVal_drop prop kws hp vs .style (by simp),
+    slotVal_drop prop kws hp vs .color (by simp), slotVal_drop prop kws hp vs .line (by simp)]
+
+/-- the code's loop = keyword dropping followed by colour shortening of what is left -/
+theorem dropKeywords_eq (kws : List (List Char)) (vs : List Tok) :
+    dropKeywords kws vs = (dropOnly kws vs).map minifyColor := by
+  unfold dropKeywords dropOnly
+  generalize (vs.filter fun t => !kws.contains (identOf t)) = r
+  cases r with
+  | nil => simp [minifyColor_none]
+  | cons a r => simp
+
+
+example : (S "border", ["none", "currentcolor", "medium"].map S) ∈ lineDropTable ∧
+    dropOnly (["none", "currentcolor", "medium"].map S) [tIdent (S "medium"), tIdent (S "NONE"), tIdent (S "red")] = [tIdent (S "red")] := by
+  decide
+
 end Verif.Props.C04
